@@ -195,12 +195,75 @@ def make(n, with_undefined=True, dupmodes=("none", "literal", "respelled"), dup_
     return fn
 
 
+def scale_fn(g):
+    import conductor.cli.run as cli_run
+    shape = ("dup-after-130", "no-dup-130", "chain-1500-top-down", "cycle-140")[g.choose("shape", 4)]
+    proj = hrun.Project()
+    try:
+        if shape in ("dup-after-130", "no-dup-130"):
+            lines = ["group(name='a')"] + ["group(name='m%d')" % i for i in range(130)]
+            deps = [":a"] + [":m%d" % i for i in range(130)] + ([":a"] if shape == "dup-after-130" else [])
+            lines.append("run_command(name='all', run='true', deps=%r)" % (deps,))
+            proj.write("COND", "\n".join(lines) + "\n")
+            target, want = "//:all", ("DuplicateDependency" if shape == "dup-after-130" else None)
+        elif shape == "cycle-140":
+            lines = ["group(name='c%d', deps=[':c%d'])" % (i, (i + 1) % 140) for i in range(140)]
+            proj.write("COND", "\n".join(lines) + "\n")
+            target, want = "//:c0", "CyclicDependency"
+        else:
+            lines = ["group(name='t%d', deps=[':t%d'])" % (i, i + 1) for i in range(1499)] + ["group(name='t1499')"]
+            proj.write("COND", "\n".join(lines) + "\n")
+            target, want = "//:t0", None
+        D = shape
+        kern = fakeos.Kernel(graphs.SymSched(g, all_ok=True), clock=fakeos.Clock())
+        res = hrun.invoke(cli_run.main, hrun.run_ns(task_identifier=target, check=True), str(proj.root), kern, timeout=200)
+        if isinstance(res.status, str):
+            g.require(False, "graph:crash:" + res.status[4:], "--check: %s; %s" % (str(res.exc)[:160], D))
+        if want:
+            g.require(res.status == 1 and res.error_class == want and not kern.tasks(), "graph:bad-graph-accepted-or-misreported",
+                      "status=%r error=%s, expected %s; %s" % (res.status, res.error_class, want, D))
+        else:
+            g.require(res.status == 0, "graph:valid-graph-rejected", "status=%r error=%s; %s" % (res.status, res.error_class, D))
+        if shape in ("chain-1500-top-down", "no-dup-130"):
+            # whole-project validation of the same (valid) project
+            from conductor.context import Context
+            from conductor.errors import ConductorError
+            holder = {}
+
+            class LsSched(fakeos.Sched):
+                def git(self, kernel, argv, cwd):
+                    if argv[:2] == ["rev-parse", "--git-dir"]:
+                        return ".git\n", 0
+                    if argv[0] == "ls-files":
+                        return "COND\n", 0
+                    return "", 128
+
+            def whole(_):
+                ctx = Context(proj.root)
+                ctx.task_index.load_all_known_tasks(ctx.git)
+                try:
+                    holder["roots"] = sorted(str(r) for r in ctx.task_index.validate_all_loaded_tasks())
+                except ConductorError as ex:
+                    holder["error"] = type(ex).__name__
+            r2 = hrun.invoke(whole, None, str(proj.root), fakeos.Kernel(LsSched()), timeout=200)
+            if isinstance(r2.status, str):
+                g.require(False, "graph:crash:" + r2.status[4:], "whole-project validation: %s; %s" % (str(r2.exc)[:160], D))
+            g.require(holder.get("roots") == (["//:t0"] if shape.startswith("chain") else ["//:all"]), "graph:whole-project-wrong-roots",
+                      "roots %s error %s; %s" % (str(holder.get("roots"))[:80], holder.get("error"), D))
+        g.goal("graph of more than 128 tasks")
+        return {"nontrivial": True, "sample": {"case": D, "status": res.status, "error": res.error_class}}
+    finally:
+        proj.cleanup()
+
+
 GOALS = ["cycle reachable from T", "cycle not reachable from T", "dangling dependency reachable from T",
          "same dependency in two spellings", "accepted graph with a shared dependency"]
 
 
 def spaces(tier):
-    sp = [Space("n3-with-undefined", make(3, dup_root_only=True),
+    sp = [Space("scale-large-graphs", scale_fn, "a task listing 131 dependencies (with / without the first one repeated at the end), a cycle of 140 "
+                "tasks, a top-down chain of 1500 tasks; run --check and whole-project validation", depth=2, goals=["graph of more than 128 tasks"]),
+          Space("n3-with-undefined", make(3, dup_root_only=True),
                 "N=3 names in 2 COND files, all 2^9 edge sets incl. self-loops x 2^3 edges to an undefined name x T x "
                 "(listing order fwd/rev | T lists its first dependency twice, literally or in a second spelling); "
                 "run --check, run, whole-project validation",
